@@ -314,6 +314,7 @@ impl Prop for C14P {
                 sec("nesting-families", tier.pick(24 * 12, 24 * 29)),
                 sec("cli-contract", tier.pick(500, 12_000)),
                 sec("generated-and-perturbed-programs", tier.pick(15_000, 300_000)),
+                sec_ex("arithmetic-in-types", (9 * crate::props::c02::NOPER * crate::props::c02::NOPER) as u64),
             ],
             "all byte strings of <=2 bytes; all token sequences of <=4 (quick) / <=5 (thorough) tokens over the 28 grammar terminals fed to parse() as constructed token slices; random byte strings <=64 bytes incl. invalid UTF-8; random token soups <=60 tokens; every single-token deletion, insertion and substitution (28 kinds) of every corpus program; every truncation of every corpus program at a token boundary; unbalanced/nested families to depth 200; generated typed programs and their ill-typed perturbations in varied parenthesisation and multi-line layout (non-ASCII indentation, CRLF) so that every diagnostic of the checker is rendered; a subset of all classes through `gram check` at the process boundary; non-trivial = distinct input that got past the tokenizer",
         );
@@ -477,6 +478,24 @@ impl Prop for C14P {
                 check_library(ctx, &s, true);
                 if idx % 6 == 0 {
                     check_cli(ctx, s.as_bytes(), false);
+                }
+            }
+            "arithmetic-in-types" => {
+                // the checker computes with its own arithmetic (the normaliser): every operator on
+                // every pair of the operand table (zero, small, the edges of the machine integer
+                // types, 200-bit values, both signs) decides a type and indexes a family
+                let n = crate::props::c02::NOPER;
+                let op = crate::eterm::ALL_OPS[(idx as usize) / (n * n)];
+                let (a, b) = (crate::props::c02::operand((idx as usize / n) % n), crate::props::c02::operand(idx as usize % n));
+                let e = crate::printer::print(&crate::hast::H::Bin(op, crate::hast::hb(a), crate::hast::hb(b)), &crate::printer::Style::plain(), 0).text;
+                let cond = if op.is_arith() { format!("({e}) > 0") } else { e.clone() };
+                for src in [
+                    format!("t : type = if {cond} then int else bool\nt"),
+                    format!("v : (if {cond} then int else int) = 42\nv"),
+                    format!("(p : {} -> type) => (x : p ({e})) => (y : p ({e})) => x", if op.is_arith() { "int" } else { "bool" }),
+                ] {
+                    let _ = check_library(ctx, &src, true);
+                    ctx.count("arithmetic-in-types:programs");
                 }
             }
             "generated-and-perturbed-programs" => {
